@@ -34,6 +34,7 @@ import (
 	"github.com/dfklegend/cell2/node/builtin/msgs"
 	"github.com/dfklegend/cell2/node/client/session"
 	"github.com/dfklegend/cell2/node/cluster"
+	"github.com/dfklegend/cell2/node/config"
 	"github.com/dfklegend/cell2/node/route"
 	"github.com/dfklegend/cell2/node/service"
 	"github.com/dfklegend/cell2/utils/common"
@@ -119,13 +120,14 @@ type driver struct {
 	workers    []*service.NodeService
 	mainT      *tctx
 	curT       *tctx // context of the goroutine that holds the token (see calls.go)
+	poisoned   bool  // a goroutine of this driver is stuck in the code under test
 	mu         sync.Mutex
 	spawned    map[string]bool
 	recv       chan recvRec
 }
 
 var (
-	drvOnce sync.Once
+	envOnce sync.Once
 	drv     *driver
 )
 
@@ -192,13 +194,21 @@ func (d *driver) expectDelivery(target *actor.PID, env *actor.MessageEnvelope) {
 	}
 }
 
+// setup returns the driver; after a hang (a service goroutine stuck inside the code under
+// test for good) a fresh one is built: new actor system, new services, new recording actors.
 func setup() *driver {
-	drvOnce.Do(func() {
+	envOnce.Do(func() {
 		logger.GetLogProxy("default").SetLogLevel(logrus.PanicLevel)
 		logger.GetLogProxy("exception").SetLogLevel(logrus.PanicLevel)
 		// requests that were really sent stay pending (nobody answers); freeze the clock so
 		// that their 30 s timeout never fires a callback into a later case
 		common.VerifSetNowMs(1_000_000)
+	})
+	if drv != nil && !drv.poisoned {
+		return drv
+	}
+	drv = nil
+	func() {
 		d := &driver{spawned: map[string]bool{}, recv: make(chan recvRec, 1024)}
 		d.sys = actor.NewActorSystemWithConfig(actor.Configure(
 			actor.WithLoggerFactory(func(*actor.ActorSystem) *slog.Logger {
@@ -235,7 +245,7 @@ func setup() *driver {
 			waitStarted(func() *service.NodeService { return d.workers[i] })
 		}
 		drv = d
-	})
+	}()
 	return drv
 }
 
@@ -411,36 +421,81 @@ type stats struct {
 	tags       map[string]bool
 }
 
-// Exec runs one history on the real code, inside the driver service's goroutine.
-func Exec(ops []hx.T) (obs []any, st stats) {
+// caseRun is what the goroutine that executes a case shares with Exec, which watches it.
+type caseRun struct {
+	mu    sync.Mutex
+	obs   []any
+	touch time.Time // last sign of life
+	hung  bool      // a call of an OCalls never returned (reported by the scheduler)
+}
+
+func (r *caseRun) alive() {
+	r.mu.Lock()
+	r.touch = time.Now()
+	r.mu.Unlock()
+}
+
+func (r *caseRun) add(o any) {
+	r.mu.Lock()
+	r.obs = append(r.obs, o)
+	r.touch = time.Now()
+	r.mu.Unlock()
+}
+
+// a call that neither returns nor reaches a scheduling point: deterministic where it happens
+// (a lock that is never released); after the first one the watchdogs stop waiting that long
+var hangsSeen int
+
+func watchdog() time.Duration {
+	if hangsSeen > 0 {
+		return 400 * time.Millisecond
+	}
+	return 3 * time.Second
+}
+
+// Exec runs one history on the real code, inside the driver service's goroutine.  A call that
+// never returns is an observation (BHang, which no model run shows), not a harness failure:
+// the history ends there and the driver is rebuilt.
+func Exec(ops []hx.T) (obs []any, st stats, hung bool) {
 	d := setup()
 	st.tags = map[string]bool{}
-	type result struct {
-		obs []any
-		err any
-	}
-	done := make(chan result, 1)
+	run := &caseRun{touch: time.Now()}
+	done := make(chan any, 1)
 	d.ns.Post(func() {
-		var out []any
 		defer func() {
 			d.curT = d.mainT
 			d.mainT.evs = nil
-			if e := recover(); e != nil {
-				done <- result{nil, e}
-				return
-			}
-			done <- result{out, nil}
+			done <- recover()
 		}()
-		out = d.execAll(ops, &st)
+		d.execAll(ops, &st, run)
 	})
-	select {
-	case r := <-done:
-		if r.err != nil {
-			panic(fmt.Sprintf("c07: panic escaped the code under test: %v", r.err))
+	tick := time.NewTicker(50 * time.Millisecond)
+	defer tick.Stop()
+	for {
+		select {
+		case e := <-done:
+			if e != nil {
+				panic(fmt.Sprintf("c07: panic escaped the code under test: %v", e))
+			}
+			if run.hung {
+				d.poisoned = true
+				hangsSeen++
+				st.tags["out-hang"] = true
+			}
+			return run.obs, st, run.hung
+		case <-tick.C:
+			run.mu.Lock()
+			stalled := time.Since(run.touch) > watchdog()+time.Second
+			cur := append([]any{}, run.obs...)
+			run.mu.Unlock()
+			if stalled {
+				// the driver service's own goroutine is stuck inside the op after cur
+				d.poisoned = true
+				hangsSeen++
+				st.tags["out-hang"] = true
+				return append(cur, "BHang"), st, true
+			}
 		}
-		return r.obs, st
-	case <-time.After(60 * time.Second):
-		panic("c07: case did not finish")
 	}
 }
 
@@ -448,23 +503,81 @@ func Exec(ops []hx.T) (obs []any, st stats) {
 type cx struct {
 	d                       *driver
 	st                      *stats
+	run                     *caseRun
 	viewSize, regs, updates int
+	members                 []*cluster.Member
+	self                    int64 // -1: own address not set
 }
 
-func (d *driver) execAll(ops []hx.T, st *stats) []any {
-	// fresh state: empty route table, node/app's default route, empty cluster view
+// tagSelf records where the asking node stands in the view it is asked about
+func (c *cx) tagSelf() {
+	if c.self < 0 {
+		return
+	}
+	tags := c.st.tags
+	listed := false
+	for _, m := range c.members {
+		if int64(m.Port) != c.self {
+			continue
+		}
+		listed = true
+		if app.IsWorkState(m.State) {
+			tags["self-listed-working"] = true
+			continue
+		}
+		tags["self-listed-not-working"] = true
+		for _, full := range m.Services {
+			ty, name := app.SplitServiceName(full)
+			if name == "" {
+				continue
+			}
+			tags["self-not-working-hosts-a-service"] = true
+			for _, o := range c.members {
+				if o == m || !app.IsWorkState(o.State) {
+					continue
+				}
+				for _, f2 := range o.Services {
+					if t2, n2 := app.SplitServiceName(f2); n2 != "" && t2 == ty {
+						tags["self-not-working-hosts-type-another-working-node-hosts"] = true
+					}
+				}
+			}
+		}
+	}
+	if !listed {
+		tags["self-not-listed"] = true
+	}
+}
+
+var selfCfg = &config.ClusterInfo{Name: "c"}
+
+// the address this node knows as its own (Cluster.InitSelf, done by App.StartNode in production)
+func setSelf(a int64) {
+	addr := ""
+	if a >= 0 {
+		addr = fmt.Sprintf("h:%d", a)
+	}
+	app.Node.GetCluster().InitSelf(addr, selfCfg, "c@self", nil, nil)
+}
+
+func (d *driver) execAll(ops []hx.T, st *stats, run *caseRun) {
+	// fresh state: empty route table, node/app's default route, empty cluster view, own
+	// address not set
 	route.TheRouteService = route.NewRouteService()
 	route.SetDefaultRoute(d.appDefault)
 	app.Node.GetCluster().UpdateClusterTopology(nil)
+	setSelf(-1)
 	for len(d.recv) > 0 {
 		<-d.recv
 	}
-	c := &cx{d: d, st: st}
-	obs := make([]any, 0, len(ops))
+	c := &cx{d: d, st: st, run: run, self: -1}
 	for _, o := range ops {
-		obs = append(obs, c.execOne(o))
+		run.alive()
+		run.add(c.execOne(o))
+		if run.hung {
+			return // goroutines of this driver are stuck: the history ends here
+		}
 	}
-	return obs
 }
 
 func (c *cx) decision() {
@@ -549,10 +662,18 @@ func (c *cx) execOn(ns *service.NodeService, t *tctx, o hx.T) (res any) {
 		}
 		st.tags["set-default-"+m.Name] = true
 		return "BUnit"
+	case "OSelf":
+		setSelf(o.Int(0))
+		st.tags["self-address-set"] = true
+		c.self = o.Int(0)
+		c.tagSelf()
+		return "BUnit"
 	case "OUpdate":
 		ms := mkMembers(o.List(0))
 		d.ensureTargets(ms)
 		app.Node.GetCluster().UpdateClusterTopology(ms)
+		c.members = ms
+		c.tagSelf()
 		c.viewSize = 0
 		for _, m := range ms {
 			c.viewSize += len(m.Services)
